@@ -3,7 +3,8 @@
 //	vh sdl run --docs docs.ndjson --out runs.ndjson [--perms 3] [--seed 1] [--proc 1] [--calls 2] [--yaml-dir d]
 //
 // docs.ndjson holds the abstract documents TLC enumerated (one JSON object per line, line number = id).
-// Every document is rendered to YAML text in `perms` mapping-key orders (0: canonical, 1: every mapping
+// Every document is rendered to YAML text (block style for odd ids; flow-style sequences, comments and blank lines
+// for even ids -- one style per document) in `perms` mapping-key orders (0: canonical, 1: every mapping
 // reversed, >=2: seeded shuffle of every mapping), the text is given to the real sdl.Read (every other
 // permutation through sdl.ReadFile), the real DeploymentGroups / Manifest / Version are called `calls` times on
 // the parsed object, and the real validation.ValidateManifestWithDeployment judges the manifest against the
@@ -340,24 +341,74 @@ func emit(b *bytes.Buffer, n node, indent int) {
 	}
 }
 
+// flowStyle: documents with an even id are written in a second text style -- sequences of scalars and the small
+// `to` mappings in flow style, comments and blank lines -- the same for every key order of the document.
+var flowStyle bool
+
+func flowable(n node) (string, bool) {
+	switch t := n.(type) {
+	case yseq:
+		parts := []string{}
+		for _, e := range t {
+			switch et := e.(type) {
+			case scalar:
+				parts = append(parts, string(et))
+			case ymap:
+				inner, ok := flowable(et)
+				if !ok {
+					return "", false
+				}
+				parts = append(parts, inner)
+			default:
+				return "", false
+			}
+		}
+		return "[" + strings.Join(parts, ", ") + "]", true
+	case ymap:
+		if len(t) > 2 {
+			return "", false
+		}
+		parts := []string{}
+		for _, e := range t {
+			sc, ok := e.v.(scalar)
+			if !ok {
+				return "", false
+			}
+			parts = append(parts, e.k+": "+string(sc))
+		}
+		return "{" + strings.Join(parts, ", ") + "}", true
+	}
+	return "", false
+}
+
 func emitEntry(b *bytes.Buffer, pad string, e kv, indent int) {
 	switch vt := e.v.(type) {
 	case scalar:
 		fmt.Fprintf(b, "%s%s: %s\n", pad, e.k, string(vt))
 	case ymap:
+		if flowStyle && indent == 0 {
+			fmt.Fprintf(b, "\n%s# %s\n", pad, e.k)
+		}
 		fmt.Fprintf(b, "%s%s:\n", pad, e.k)
 		emit(b, vt, indent+1)
 	case yseq:
+		if flowStyle && e.k != "expose" {
+			if txt, ok := flowable(vt); ok {
+				fmt.Fprintf(b, "%s%s: %s   # %d item(s)\n", pad, e.k, txt, len(vt))
+				return
+			}
+		}
 		fmt.Fprintf(b, "%s%s:\n", pad, e.k)
 		emit(b, vt, indent+1)
 	}
 }
 
-// Render gives the YAML text of d in key order `perm`.
-func Render(d *aDoc, perm int, seed int64) []byte {
+// Render gives the YAML text of d in key order `perm`; flow selects the second text style.
+func Render(d *aDoc, perm int, seed int64, flow bool) []byte {
 	rng := rand.New(rand.NewSource(seed))
 	t := permute(tree(d), perm, rng).(ymap)
 	var b bytes.Buffer
+	flowStyle = flow
 	b.WriteString("---\n")
 	emit(&b, t, 0)
 	return b.Bytes()
@@ -672,7 +723,7 @@ func Main(args []string) int {
 					return fmt.Errorf("doc %d: %v", id, err)
 				}
 			} else {
-				text = Render(&d.aDoc, perm, pseed)
+				text = Render(&d.aDoc, perm, pseed, id%2 == 0)
 			}
 			if *yamlDir != "" {
 				_ = ioutil.WriteFile(filepath.Join(*yamlDir, fmt.Sprintf("doc%d-perm%d.yaml", id, perm)), text, 0644)
